@@ -8,7 +8,8 @@
    Variant [repaired] = /repo HEAD: all nine fixes/C15_*.patch are committed (285c7b2 restore validation, 7d1d0b3
    reverse Add replace, 3b1c45d outside-address dedup, 0cedd79 HA-synced rollback, 53e73c2 inside-VRF key, 1fd8c60
    cross-pool overlap rejected, 8d8ac1d late add completion reconciled, 0e7517a port geometry validated, 2953f22
-   release frees a mapping preserved by the degraded restore).  No C15 finding is open.  The [_refuted]
+   release frees a mapping preserved by the degraded restore).  One finding is open: the restore-window queue drops
+   releases past its bound (C15_queue_drop_refuted; modelled by the [vq] argument of [estep], vq = false is HEAD).  The [_refuted]
    theorems below are historical witnesses against the code before the named commit; [defective] = before all of
    them.
    [wf_range r]: port-range start <= end <= 65535 (not checked by cgnat.Config.Validate; listed as an assumption). *)
@@ -200,6 +201,57 @@ Theorem C15_allocate_block_refuses_iff_full :
 Proof. exact allocate_block_none_iff. Qed.
 Print Assumptions C15_allocate_block_refuses_iff_full.
 
+(* ---- event entry points and the restore-window queue (handleSessionLifecycle / Programmed / Restored, maybeEnqueue,
+   dispatch*, drainQueue).  [erun vq v c (ecomp_init p0) ops]: any stream of delivered events, direct restore steps and
+   drainQueue; vq = the queue never drops a release. ---- *)
+
+(* whatever arrives through the entry points, queued in the restore window or dispatched at once, amounts to a
+   sequence of component events of [cstep]; a keyed event stream gives a keyed sequence *)
+Theorem C15_events_refine_component :
+  forall vq v c f ops s, forallb (eop_keyed f) ops = true -> forallb (ev_keyed f) (e_queue s) = true ->
+  exists cops, e_comp (erun vq v c s ops) = crun v c (e_comp s) cops /\ forallb (keyed f) cops = true.
+Proof. exact erun_refines. Qed.
+Print Assumptions C15_events_refine_component.
+
+(* reverse exactness end to end over the entry points, for every keyed event stream (releases name the subscriber of
+   their session), whatever was queued, in whatever order restore steps and the drain interleave *)
+Theorem C15_event_level_reverse_lookup_exact :
+  forall r p0 f ops ip port, setup repaired r = Some p0 -> forallb (eop_keyed f) ops = true ->
+  let s := e_comp (erun true repaired (effective r) (ecomp_init p0) ops) in
+  match rev_lookup (cp_rev s) ip port with
+  | Some m => In (m_blk m) (blocks_of (cp_pool s) (m_sub m)) /\ covers (m_blk m) ip port = true /\
+              forall k b, In b (blocks_of (cp_pool s) k) -> covers b ip port = true -> k = m_sub m /\ b = m_blk m
+  | None => forall k b, In b (blocks_of (cp_pool s) k) -> covers b ip port = true -> exists sid, In (sid, k, b) (cp_pend s)
+  end.
+Proof. exact event_level_exact. Qed.
+Print Assumptions C15_event_level_reverse_lookup_exact.
+
+(* the four pool statements for every event stream, keyed or not, with or without the queue repair *)
+Theorem C15_event_level_pool_properties :
+  forall r p0 vq ops, setup repaired r = Some p0 ->
+  let c := effective r in
+  let s := e_comp (erun vq repaired c (ecomp_init p0) ops) in
+  (forall k1 k2 b1 b2, k1 <> k2 -> In b1 (blocks_of (cp_pool s) k1) -> In b2 (blocks_of (cp_pool s) k2) ->
+     b_ip b1 = b_ip b2 -> b_end b1 < b_start b2 \/ b_end b2 < b_start b1) /\
+  (forall k b, In b (blocks_of (cp_pool s) k) ->
+     In (b_ip b) (flat_map expand (r_outside r)) /\ ~ In (b_ip b) (r_excluded r) /\
+     c_pstart c <= b_start b /\ (b_start b - c_pstart c) mod c_bs c = 0 /\
+     b_end b = b_start b + c_bs c - 1 /\ b_end b <= c_pend c) /\
+  (forall k, N.of_nat (length (blocks_of (cp_pool s) k)) <= c_max c) /\
+  (c_paired c = true -> forall k b1 b2, In b1 (blocks_of (cp_pool s) k) -> In b2 (blocks_of (cp_pool s) k) ->
+     b_ip b1 = b_ip b2).
+Proof. exact event_level_pool_props. Qed.
+Print Assumptions C15_event_level_pool_properties.
+
+(* a release delivered in the restore window is queued whatever the length of the queue (and is then dispatched by
+   drainQueue like any queued event: [estep] of [EvDrain]) *)
+Theorem C15_release_event_never_dropped :
+  forall v c s e obs, is_release e = true -> e_drained s = false ->
+  let s' := estep true v c s (EvDeliver e obs) in
+  e_queue s' = e_queue s ++ [e] /\ e_dropped s' = e_dropped s.
+Proof. exact release_never_dropped. Qed.
+Print Assumptions C15_release_event_never_dropped.
+
 (* ---- what the code violated before the fixes now in /repo (variant [defective] or a single missing repair) ---- *)
 
 (* Before 285c7b2: RestoreMapping accepts an unaligned block overlapping subscriber 1's block; releasing the restored subscriber
@@ -350,6 +402,21 @@ Theorem C15_degraded_leak_refuted :
 Proof. vm_compute. split; reflexivity. Qed.
 Print Assumptions C15_degraded_leak_refuted.
 
+(* ---- open finding: the restore-window queue drops releases past its bound (vq = false is /repo HEAD) ---- *)
+(* Session 3's mapping is restored, 4096 events fill the queue, session 3's release is dropped, drainQueue runs:
+   subscriber 4 keeps the block and session 3 stays recorded; with the repair the same stream frees both. *)
+Definition junk_events : list eop := repeat (EvDeliver (ELifecycle SActive AIPoE 0 0 []) None) 4096.
+Definition overflow_stream : list eop :=
+  EvDirect (CRestorePresent 3 4 {| b_ip := 1681915905; b_start := 1024; b_end := 1039 |} 0 None)
+  :: junk_events ++ [EvDeliver (ELifecycle SReleased AIPoE 3 4 []) None; EvDrain []].
+Theorem C15_queue_drop_refuted :
+  (let s := erun false repaired (effective ex_raw1) (ecomp_init (pool_of repaired ex_raw1)) overflow_stream in
+   blocks_of (cp_pool (e_comp s)) 4 <> [] /\ cp_sess (e_comp s) = [3] /\ e_dropped s = 1) /\
+  (let s := erun true repaired (effective ex_raw1) (ecomp_init (pool_of repaired ex_raw1)) overflow_stream in
+   blocks_of (cp_pool (e_comp s)) 4 = [] /\ cp_sess (e_comp s) = [] /\ e_dropped s = 0).
+Proof. vm_compute. repeat split; discriminate. Qed.
+Print Assumptions C15_queue_drop_refuted.
+
 (* non-vacuity of the hypotheses: the same geometry, a history with allocations by two subscribers, a release, a
    valid restore and a refused (unaligned) restore, run on the repaired model *)
 Example C15_nonvacuous :
@@ -399,3 +466,20 @@ Example C15_keyed_nonvacuous :
      CRelease 6 2 [false]; CActivateLate 13 6 None; CAddComplete 13 false] = true.
 Proof. reflexivity. Qed.
 Print Assumptions C15_keyed_nonvacuous.
+
+(* the hypotheses of the event-level theorems are met by a stream with queued activations and releases, a direct
+   restore, foreign payloads, other access types and a drain *)
+Example C15_event_level_nonvacuous :
+  let ops := [EvDeliver (EProgrammed AIPoE 1 5 true) None; EvDeliver (ELifecycle SReleased AIPoE 9 7 []) None;
+              EvDeliver (EProgrammed APPPoE 2 6 true) None; EvDeliver (ELifecycle SActive AIPoE 3 8 []) None;
+              EvDeliver (EProgrammed AOtherAccess 4 9 true) None;
+              EvDirect (CRestoreDegraded 7 7 {| b_ip := 1681915905; b_start := 1088; b_end := 1103 |});
+              EvDeliver EBadPayload None; EvDrain [];
+              EvDeliver (ELifecycle SReleased APPPoE 2 6 []) None; EvDeliver (ERestored AIPoE 8 10 true) None] in
+  forallb (eop_keyed (fun sid => match sid with 9 => 7 | 2 => 6 | _ => 0 end)) ops = true /\
+  let s := e_comp (erun true repaired (effective ex_raw1) (ecomp_init (pool_of repaired ex_raw1)) ops) in
+  cp_sess s = [1; 8] /\ blocks_of (cp_pool s) 6 = [] /\
+  blocks_of (cp_pool s) 7 = [ {| b_ip := 1681915905; b_start := 1088; b_end := 1103 |} ] /\
+  option_map m_sub (rev_lookup (cp_rev s) 1681915905 1040) = Some 10.
+Proof. vm_compute. repeat split. Qed.
+Print Assumptions C15_event_level_nonvacuous.
